@@ -83,6 +83,19 @@ type fakeHost struct {
 	gateCloseTo map[peer.ID]*closeGate
 	meet        int
 	meetCh      chan struct{}
+	dialGateTo  map[peer.ID]*closeGate
+}
+
+func (h *fakeHost) setDialGate(m map[peer.ID]*closeGate) {
+	h.mu.Lock()
+	h.dialGateTo = m
+	h.mu.Unlock()
+}
+
+func (h *fakeHost) opened() int {
+	h.mu.Lock()
+	defer h.mu.Unlock()
+	return len(h.out)
 }
 
 func (h *fakeHost) setMeet(n int) {
@@ -183,6 +196,14 @@ func (h *fakeHost) NewStream(ctx context.Context, p peer.ID, pids ...protocol.ID
 	h.net.mu.Lock()
 	dst := h.net.hosts[p]
 	h.net.mu.Unlock()
+	// scripted slow dial: NewStream to this peer announces itself and waits for the harness
+	h.mu.Lock()
+	dg := h.dialGateTo[p]
+	h.mu.Unlock()
+	if dg != nil {
+		dg.in <- struct{}{}
+		<-dg.out
+	}
 	h.mu.Lock()
 	s := &fakeStream{remote: p, failClose: h.failCloseTo[p], failWrite: h.failWriteTo[p], closeGate: h.gateCloseTo[p]}
 	h.mu.Unlock()
